@@ -11,9 +11,9 @@
                                                      reported unspent is an input and spends output index = its position)
      C16_legacy_message_partial                      message_is_sighash, legacy kinds, sub-domain (ONE selected input; hash type
                                                      ALL, ALL|ANYONECANPAY, or SINGLE(|ANYONECANPAY) with a single output)
-     C16_legacy_signatures_valid_partial             send_valid at the signature level on that legacy sub-domain, from
-                                                     curve_facts (C01): every signature is DER||hashtype and ECDSA-valid for the
-                                                     consensus legacy sighash under its key
+     C16_legacy_signatures_valid_partial,            send_valid at the signature level on those sub-domains, from
+     C16_segwit_signatures_valid_partial             curve_facts (C01): every signature is DER||hashtype and ECDSA-valid for the
+                                                     consensus sighash (legacy / BIP143) of its input under its key
    WHAT DOES NOT HOLD (the known findings; KNOWN_FINDINGS.txt) - for the whole class and with kernel-checked witnesses:
      C16_segwit_message_actual                       what is signed instead: the pre-image of input number utxo.vout of the
                                                      transaction with version 1 / locktime 0, for EVERY reported unspent
@@ -27,11 +27,10 @@
                            scriptCode ht) of the transaction t that is returned.           REFUTED by the six theorems above.
      send_valid         :  forall scenario with keys, forall selected input j,
                            Spec.Sighash.unlocks sha256 ripemd160 ecdsa strict_der decode_inner t j (sats u_j) (lock_of kind) items_j wit_j
-                           REFUTED outside the sub-domains; on the legacy sub-domain proved at the signature level
-                           (C16_legacy_signatures_valid_partial).  MISSING for the full `unlocks` statement on the sub-domains: the
+                           REFUTED outside the sub-domains; on the sub-domains proved at the signature level
+                           (C16_legacy_signatures_valid_partial, C16_segwit_signatures_valid_partial).  MISSING for the full `unlocks` statement on the sub-domains: the
                            assembly-layer lemmas (script() push encodings of the items, decode of the multisig redeem script, SEC1
-                           round trip of keys.pub, BIP66 strictness of every signature) and the segwit analogue of sign_keys_sound
-                           over sign_msgs; the correspondence (independent checker harness/c16ref.py: unlocks + OpenSSL ECDSA)
+                           round trip of keys.pub, BIP66 strictness of every signature); the correspondence (independent checker harness/c16ref.py: unlocks + OpenSSL ECDSA)
                            checks exactly these on every scenario of every run.
      sat_exact          :  forall k, 0 <= k <= 21*10^14 -> sat_of_btc (nearest_double (k / 10^8)) = Ok k.   Not proved (needs an
                            error analysis of two roundings: |err| <= k * 2^-52 < 1/2); kernel-computed below for the boundary
@@ -202,6 +201,27 @@ Theorem C16_legacy_signatures_valid_partial :
               (ki_keys k) sigs.
 Proof. exact legacy_signatures_valid_partial. Qed.
 Print Assumptions C16_legacy_signatures_valid_partial.
+
+Theorem C16_segwit_signatures_valid_partial :
+  forall (p a b n : Z) (G : point) (sha256 : bytes -> bytes),
+    curve_facts p a b n G ->
+    forall (sats : utxo -> Z) (t : tx) script f (unspents : list utxo) keys draws msgs sigss,
+    wf_tx t -> tx_version t = 1 -> tx_locktime t = 0 -> standard_flag f ->
+    Z.of_nat (length script) < 2 ^ 64 ->
+    length unspents = length (tx_ins t) ->
+    (forall j x, nth_error unspents j = Some x ->
+                 u_vout x = Z.of_nat j /\ sat_of_btc (u_amount x) = Ok (sats x) /\ 0 <= sats x < 2 ^ 64) ->
+    segwit_msgs sha256 (map ser_txin (tx_ins t)) (map ser_txout (tx_outs t)) (ser_script script) (Some f) unspents = Ok msgs ->
+    sign_msgs p a n G sha256 draws keys msgs (Some f) = Ok sigss ->
+    forall j x, nth_error unspents j = Some x ->
+      exists digest sgs,
+        sighash sha256 t j (sats x) script f = Some digest /\ nth_error sigss j = Some sgs /\
+        Forall2 (fun key sg => exists d r s der,
+                   privkey_int n key = Ok d /\ der_encode_sig r s = Ok der /\ sg = der ++ [z2b f] /\
+                   verify p a b n G r s (smul p a d G) (of_be digest) = Ok true)
+                keys sgs.
+Proof. exact segwit_signatures_valid_partial. Qed.
+Print Assumptions C16_segwit_signatures_valid_partial.
 
 (* the hypothesis curve_facts is satisfiable (C01: proved by computation for y^2 = x^3 + 7 over F_43, order 31) *)
 Example C16_curve_facts_nonvacuous : curve_facts 43 0 7 31 Bits.Proofs.SmallCurves.G43.
